@@ -289,22 +289,54 @@ def _is_max_filter(cond, var) -> bool:
     return txt in (f"not {var}.max_is_reached", f"{var}.max_is_reached is False", f"{var}.max_is_reached == False")
 
 
+def _is_filtered_comp(v) -> bool:
+    if isinstance(v, ast.ListComp) and len(v.generators) == 1:
+        gen = v.generators[0]
+        tv = unparse(gen.target)
+        conds = []
+        for c in gen.ifs:
+            conds += c.values if isinstance(c, ast.BoolOp) and isinstance(c.op, ast.And) else [c]
+        return any(_is_max_filter(c, tv) for c in conds) and unparse(v.elt) == tv
+    return False
+
+
+def _helper_returns_filtered(owner_fn, call) -> bool:
+    """`name(...)` where name is a function nested in owner_fn whose every non-None return value is a max-filtered
+    comprehension (an extracted helper)."""
+    if not (isinstance(call, ast.Call) and isinstance(call.func, ast.Name)):
+        return False
+    target = None
+    for n in ast.walk(owner_fn):
+        if isinstance(n, ast.FunctionDef) and n.name == call.func.id and n is not owner_fn:
+            target = n
+    if target is None:
+        return False
+    rets = [r for r in ast.walk(target) if isinstance(r, ast.Return)]
+    vals = [r.value for r in rets if r.value is not None and not (isinstance(r.value, ast.Constant) and r.value.value is None)]
+    if not vals:
+        return False
+    hg = cfg_of(target)
+    for v in vals:
+        if _is_filtered_comp(v):
+            continue
+        if isinstance(v, ast.Name):
+            ds = dom.assignments_to(hg, v.id)
+            if ds and all(isinstance(d.ast, ast.Assign) and _is_filtered_comp(d.ast.value) for d in ds):
+                continue
+        return False
+    return True
+
+
 def _collection_filtered(g, name, use, depth=0) -> (bool, str):
-    """Every definition of collection `name` reaching `use` is a comprehension whose filter includes `not x.max_is_reached`."""
+    """Every definition of collection `name` reaching `use` is a comprehension whose filter includes `not x.max_is_reached`
+    (directly or through a local helper that returns such a comprehension)."""
     defs = dom.reaching_defs(g, name, use)
     if not defs:
         return False, f"{name} has no reaching definition"
     for d in defs:
         v = d.ast.value if isinstance(d.ast, ast.Assign) else None
-        if isinstance(v, ast.ListComp) and len(v.generators) == 1:
-            gen = v.generators[0]
-            tv = unparse(gen.target)
-            conds = []
-            for c in gen.ifs:
-                conds += c.values if isinstance(c, ast.BoolOp) and isinstance(c.op, ast.And) else [c]
-            if any(_is_max_filter(c, tv) for c in conds) and unparse(v.elt) == tv:
-                continue
-            return False, f"`{short(d.ast, 90)}` does not filter by max_is_reached"
+        if _is_filtered_comp(v) or _helper_returns_filtered(g.fn, v):
+            continue
         return False, f"`{short(d.ast, 90)}` is not a max-filtered comprehension"
     return True, ''
 
